@@ -14,4 +14,12 @@ var props = []propCfg{
 		Assume: []string{"the injected persistent I/O error is a sentinel distinct from io.EOF/io.ErrUnexpectedEOF", "forging a ≥10-byte tag by a single manipulation has negligible probability",
 			"reference codec refimpl/streamref is correct (it is cross-checked in both directions against Tink in every fault-free run)"},
 	},
+	{
+		ID: "C11", World: "manager", Pkg: "worlds/manager", Test: "TestManager", Level: "exploration",
+		Variants: []variant{{Name: "plain", Quick: 50000, Thorough: 1500000, Workers: 16, QuickS: 900, ThoroughS: 3 * 3600}},
+		Rule: "one run = one drawn history (1..60 operations quick, 1..300 thorough) over Add / AddKey / AddNewKeyFromParameters / SetPrimary / Enable / Disable / Delete / Handle / NewManagerFromHandle(earlier handle) / re-inspection, " +
+			"started from an empty manager or from a handle parsed from a stored keyset with DISABLED and DESTROYED keys; key-ID draws are served from a script (live ID, deleted/burned ID, 0, 2^32-1) through the RNG seam so the re-draw loop runs; " +
+			"after every operation the keyset is compared with a reference model. Non-trivial = at least two distinct (operation kind, outcome) pairs occurred; distinct = signature (start kind, set of (op kind, ok/err) pairs, scripted live-ID collisions class, max live keys class, branches class).",
+		Assume: []string{"key.Equal of the key types used (AES-GCM, ChaCha20-Poly1305, HMAC, Ed25519, ECDSA) distinguishes different key material", "histories up to the stated length; at most ~12 live keys"},
+	},
 }
